@@ -33,6 +33,8 @@ Record WFg (xr : N * N -> Prop) (xp : N -> Prop) (h : hub) : Prop := {
   wf_counted : forall b l sid, aget h.(h_counted) b = Some l -> In sid l -> live h sid;
   wf_conns : forall c cn sid, aget h.(h_conns) c = Some cn -> cn.(c_sess) = Some sid ->
               exists s, get_sess h sid = Some s /\ s.(s_conn) = Some c;
+  (* the sessions counted for a backend never exceed its limit *)
+  wf_limit : forall b l, aget h.(h_counted) b = Some l -> N.of_nat (length l) <= limit_of h b;
 }.
 
 Definition none2 : N * N -> Prop := fun _ => False.
@@ -68,6 +70,7 @@ Record equiv (h h' : hub) : Prop := {
   eq_clients : h_clients h' = h_clients h;
   eq_counted : h_counted h' = h_counted h;
   eq_conns : h_conns h' = h_conns h;
+  eq_limits : h_limits h' = h_limits h;
 }.
 
 Lemma equiv_refl h : equiv h h.
@@ -129,6 +132,7 @@ Proof.
   - intros b l sid Hb Hi. rewrite (eq_counted _ _ E) in Hb. apply EL; auto. eapply wf_counted; eauto.
   - intros c cn sid Hc Hs. rewrite (eq_conns _ _ E) in Hc. destruct (wf_conns _ _ h W c cn sid Hc Hs) as [s [Hs0 Hcn]].
     destruct (equiv_get' _ _ _ _ E Hs0) as [s' [Hs' Hco]]. core_inj Hco. exists s'. split; congruence.
+  - intros b l. rewrite (eq_counted _ _ E). unfold limit_of. rewrite (eq_limits _ _ E). apply (wf_limit _ _ h W).
 Qed.
 
 (* updating a session without touching room, kind, connection *)
@@ -385,6 +389,7 @@ Proof.
   - intros b l x Hb Hx. apply Hlive. eapply wf_counted; eauto.
   - intros c cn x Hc Hx. destruct (wf_conns _ _ h W c cn x Hc Hx) as [sx [Hsx Hcx]]. rewrite Hget.
     destruct (N.eqb_spec x sid) as [->|]; [|eauto]. exists s'. split; [reflexivity|]. rewrite Hs in Hsx. injection Hsx as <-. congruence.
+  - apply (wf_limit _ _ h W).
 Qed.
 
 Lemma rs_del_sessions h sid : h_sessions (rs_del h sid) = h_sessions h.
@@ -526,6 +531,14 @@ Proof.
   destruct (aget (h_conns h) c0); repeat split; reflexivity.
 Qed.
 
+Lemma drop_vt_limits h kd sid : h_limits (drop_vt h kd sid) = h_limits h.
+Proof.
+  unfold drop_vt. destruct kd as [| |p v]; try reflexivity.
+  destruct (pget (h_vtable h) (p, v)) as [x|]; [destruct (N.eqb x sid)|]; reflexivity.
+Qed.
+Lemma detach_conn_limits h oc : h_limits (detach_conn h oc) = h_limits h.
+Proof. unfold detach_conn. destruct oc as [c0|]; [|reflexivity]. destruct (aget (h_conns h) c0); reflexivity. Qed.
+
 Lemma scrub_proj h sid :
   h_sessions (scrub h sid) = adel (h_sessions h) sid /\ h_rooms (scrub h sid) = h_rooms h /\
   h_rs1 (scrub h sid) = h_rs1 h /\ h_rs2 (scrub h sid) = h_rs2 h /\
@@ -608,6 +621,17 @@ Proof.
       - split; [assumption|discriminate]. }
     destruct Hc0 as [Hc0 Hnc]. destruct (wf_conns _ _ H W c cn x Hc0 Hx) as [sx [Hsx Hcx]]. exists sx. rewrite Hget.
     destruct (N.eqb_spec x sid) as [->|]; [|auto]. rewrite Hs in Hsx. injection Hsx as <-. contradiction.
+  - intros b l Hb.
+    assert (Hlim : limit_of F b = limit_of H b).
+    { unfold limit_of, F. rewrite drop_vt_limits, detach_conn_limits. reflexivity. }
+    rewrite Hlim. unfold F in Hb. rewrite D9, E9, S9 in Hb.
+    assert (Hb0 : exists l0, aget (h_counted H) b = Some l0 /\ l = nrem sid l0).
+    { clear - Hb. induction (h_counted H) as [|[b0 l0] r IH]; cbn in *; [discriminate|].
+      destruct (N.eqb b b0); [injection Hb as <-; eauto|auto]. }
+    destruct Hb0 as [l0 [Hb0 ->]]. pose proof (wf_limit _ _ H W b l0 Hb0) as Hl.
+    assert (Hlen : (length (nrem sid l0) <= length l0)%nat).
+    { clear. induction l0 as [|y r IH]; cbn; [lia|]. destruct (N.eqb sid y); cbn; lia. }
+    lia.
 Qed.
 
 Lemma fst_eq {A B} (p : A * B) a b : p = (a, b) -> a = fst p.
@@ -819,6 +843,7 @@ Proof.
   - intros b l x Hb Hx. apply Hlive. eapply wf_counted; eauto.
   - intros c cn x Hc Hx. destruct (wf_conns _ _ h W c cn x Hc Hx) as [sx [Hsx Hcx]]. rewrite Hget.
     destruct (N.eqb_spec x sid) as [->|]; [|eauto]. exfalso. eapply Hno; eauto.
+  - apply (wf_limit _ _ h W).
 Qed.
 
 Lemma wf_del_conn xr xp h c : WFg xr xp h -> WFg xr xp (set_conns h (adel (h_conns h) c)).
@@ -928,14 +953,16 @@ Proof.
   - intros x Hx. apply Hlive. eapply wf_clients; eauto.
   - intros b l x Hb Hx. apply Hlive. eapply wf_counted; eauto.
   - intros c cn x Hc Hx. destruct (wf_conns _ _ h W c cn x Hc Hx) as [sx [Hsx Hcx]]. eauto.
+  - apply (wf_limit _ _ h W).
 Qed.
 
 Lemma live_put_same h sid s : live (put_sess h sid s) sid.
 Proof. exists s. unfold get_sess, put_sess. hsimpl. apply aget_aset_same. Qed.
 
 Lemma wf_set_counted xr xp h v : WFg xr xp h ->
-  (forall b l x, aget v b = Some l -> In x l -> live h x) -> WFg xr xp (set_counted h v).
-Proof. intros W Hv. constructor; try apply W. exact Hv. Qed.
+  (forall b l x, aget v b = Some l -> In x l -> live h x) ->
+  (forall b l, aget v b = Some l -> N.of_nat (length l) <= limit_of h b) -> WFg xr xp (set_counted h v).
+Proof. intros W Hv Hl. constructor; try apply W; [exact Hv|exact Hl]. Qed.
 
 (* attaching a connection to a session that names it *)
 Lemma wf_attach_conn xr xp h c cn sid s :
@@ -954,7 +981,7 @@ Proof.
   set (sid := next_id h).
   assert (Hfresh : get_sess (set_nextsid h sid) sid = None) by (exact (next_id_fresh h)).
   assert (W0 : WFg xr xp (set_nextsid h sid)) by (eapply wf_equiv; [apply equiv_nextsid|exact W]).
-  match goal with |- context [if ?cond then _ else _] => destruct cond end.
+  match goal with |- context [if ?cond then _ else _] => destruct cond eqn:Hcond end.
   - cbn [fst]. now apply wf_set_conn_nosess.
   - cbn [fst].
     set (h1 := if negb (is_internal k) && negb (N.eqb (limit_of h b) 0)
@@ -967,10 +994,18 @@ Proof.
     { (* the counted list may name the new session: add the session first, then the entry *)
       assert (Wp : WFg xr xp (put_sess (set_nextsid h sid) sid (new_session b k u c))).
       { apply wf_new_session; auto. intros p v Hkv. unfold new_session in Hkv. cbn in Hkv. subst k. discriminate. }
-      unfold h2, h1. destruct (negb (is_internal k) && negb (N.eqb (limit_of h b) 0)); [|exact Wp].
+      unfold h2, h1. destruct (negb (is_internal k) && negb (N.eqb (limit_of h b) 0)) eqn:Hlimd; [|exact Wp].
       assert (E : put_sess (set_counted (set_nextsid h sid) (aset (h_counted (set_nextsid h sid)) b (counted_of (set_nextsid h sid) b ++ [sid]))) sid (new_session b k u c)
                   = set_counted (put_sess (set_nextsid h sid) sid (new_session b k u c)) (aset (h_counted h) b (counted_of h b ++ [sid]))) by reflexivity.
-      rewrite E. apply wf_set_counted; [exact Wp|].
+      rewrite E. apply wf_set_counted; [exact Wp| |].
+      2:{ intros b' l. rewrite aget_aset. assert (Hlo : forall bb, limit_of (put_sess (set_nextsid h sid) sid (new_session b k u c)) bb = limit_of h bb) by reflexivity.
+          rewrite Hlo. destruct (N.eqb_spec b' b) as [->|]; [|apply (wf_limit _ _ h W)].
+          intros H. injection H as <-. rewrite app_length. cbn [length].
+          apply andb_prop in Hlimd as [_ Hl0]. apply negb_true_iff in Hl0. apply N.eqb_neq in Hl0.
+          cbn [andb] in Hcond. unfold counted_of in *.
+          destruct (aget (h_counted h) b) as [l0|] eqn:Hb0; [|cbn; lia].
+          pose proof (wf_limit _ _ h W b l0 Hb0) as Hle.
+          destruct l0 as [|y l0]; [cbn; lia|]. cbn [negb andb] in Hcond. apply N.leb_gt in Hcond. cbn [length] in *. lia. }
       intros b' l x. rewrite aget_aset. destruct (N.eqb_spec b' b) as [->|].
       - intros H. injection H as <-. intros Hin. apply in_app_or in Hin as [Hin|[<-|[]]]; [|apply live_put_same].
         assert (Hl : live (set_nextsid h sid) x).
@@ -1031,6 +1066,7 @@ Proof.
   - intros b l x Hb Hx. apply Hlive. eapply wf_counted; eauto.
   - intros c cn x Hc Hx. destruct (wf_conns _ _ h W c cn x Hc Hx) as [sx [Hsx Hcx]]. rewrite Hget.
     destruct (N.eqb_spec x sid) as [->|]; [|eauto]. exfalso. eapply Hno; eauto.
+  - apply (wf_limit _ _ h W).
 Qed.
 
 Lemma send_bye_detached h c cn r :
@@ -1157,6 +1193,7 @@ Proof.
   - intros b l x Hb Hx. apply Hlive. eapply wf_counted; eauto.
   - intros c cn x Hc Hx. destruct (wf_conns _ _ h W c cn x Hc Hx) as [sx [Hsx Hcx]]. rewrite Hget.
     destruct (N.eqb_spec x sid) as [->|]; [|eauto]. rewrite Hs in Hsx. injection Hsx as <-. eexists; split; [reflexivity|congruence].
+  - apply (wf_limit _ _ h W).
 Qed.
 
 Lemma leave_room_noroom h sid notify s' :
